@@ -402,6 +402,7 @@ Definition cases : list (cli_config * cli_outcome) := [
 		"invalid-import-path":             {"a.go": "package b\n\nimport \"\"\n\nfunc F(IN int) int { return IN }\n"},
 		"self-import":                     {"a.go": "package b\n\nimport b \"fm/broken/self-import\"\n\nfunc F(IN int) int { return IN + b.X }\n"},
 		"blank-and-dot-import-of-missing": {"a.go": "package b\n\nimport (\n\t_ \"example.com/none/a\"\n\t. \"example.com/none/b\"\n)\n\nfunc F(IN int) int { return IN }\n"},
+		"package-name-with-test-suffix":   {"a.go": "package b_test\n\nfunc F(IN int) int { return IN }\n"},
 		"undefined-names":                 {"a.go": "package b\n\nfunc F(IN int) int { x := undefinedFn(IN); return x.y[0] }\n\nfunc H(s string) bool { return len(s) == 0 }\n"},
 	}
 	for name, files := range broken {
